@@ -59,7 +59,7 @@ ObsSnap(o) == ObsSnapR(o, 0)
 
 \* exact arithmetic at 2^32 in base 2^16
 B == 65536
-PowerHL(s, t) == <<(s * B) \div t, (((s * B) % t) * B) \div t>>
+PowerHL(s, t) == IF t = 0 THEN <<0, 0>> ELSE <<(s * B) \div t, (((s * B) % t) * B) \div t>>
 SumHL(pw) == LET hi == [v \in DOMAIN pw |-> pw[v][1]]  lo == [v \in DOMAIN pw |-> pw[v][2]]
                  L == SumOver(lo, DOMAIN pw)
              IN  <<SumOver(hi, DOMAIN pw) + (L \div B), L % B>>
